@@ -82,6 +82,9 @@ SPECS = {
             # HEM: beyond its pole the closed-form exponent is finite and REAL, so the generic guard cannot see eta1 <= 1; the class has its own
             {"kind": "raise_test", "file": "rpylib/model/levymodel/mixed/hem.py", "py": "ExponentialOfHEMModel.__init__", "coq": "hem_exp_raises",
              "args": [("eta1", "R")], "ret": "bool", "attrs": {"parameters.eta1": "eta1"}},
+            # CGMY: class guard m < 1 or (m == 1 and y <= 0), in front of the generic one
+            {"kind": "raise_test", "file": CGMY, "py": "ExponentialOfCGMYModel.__init__", "coq": "cgmy_exp_raises",
+             "args": [("m", "R"), ("y", "R")], "ret": "bool", "attrs": {"parameters.m": "m", "parameters.y": "y"}},
             {"kind": "assign_rhs", "file": EXPLEVY, "py": "ExponentialOfLevyModel.__init__", "target": "self.omega", "coq": "exp_omega",
              "args": [("z_re", "R")], "ret": "R", "subst": {"exponent_at_minus_i.real": "z_re"}},
             {"kind": "assign_rhs", "file": EXPLEVY, "py": "ExponentialOfLevyModel.log_characteristic_function", "target": "drift",
